@@ -255,6 +255,12 @@ Lemma Inv_heap_set_data h i d k id m d' :
   Inv_heap (upd h i (NFile d' k id m)) /\ kinds_kept h (upd h i (NFile d' k id m)).
 Proof. intros IH Hg. apply Inv_heap_upd_leaf with (x0 := NFile d k id m); auto. Qed.
 
+(* data and meta data of a file rewritten together (a write that clears set-id bits) *)
+Lemma Inv_heap_set_file h i d k id m d' m' :
+  Inv_heap h -> get h i = Some (NFile d k id m) ->
+  Inv_heap (upd h i (NFile d' k id m')) /\ kinds_kept h (upd h i (NFile d' k id m')).
+Proof. intros IH Hg. apply Inv_heap_upd_leaf with (x0 := NFile d k id m); auto. Qed.
+
 (* ---- create: allocate a leaf at the end and enter it under a fresh name -------------- *)
 Definition leaf_ok (x : node) : Prop :=
   node_children x = [] /\ (node_nlink x = None \/ node_nlink x = Some 1%Z).
